@@ -257,6 +257,11 @@ def finish(ctx, mods):
 
 def _xs(rng, n):
     pat = int(rng.integers(0, 5))
+    if pat == 4 and rng.random() < 0.3:
+        # sizes in bytes on a large base (up to ~1e15, exactly representable) with small steps: neighbouring sizes differ by
+        # parts in 1e12..1e15
+        x = float(int(10.0 ** rng.uniform(12, 15))) + np.cumsum(rng.integers(1, 9, n)).astype(float)
+        return x, 5
     if pat == 4:
         # large cache sizes (bytes / blocks): integers far above 2**24, still exactly representable
         unit = float(2 ** int(rng.integers(8, 25))) if rng.random() < 0.6 else float(int(10.0 ** rng.uniform(2, 7)))
